@@ -484,6 +484,7 @@ pub fn c19_check_str(input: &[u8]) -> Vec<Fail> {
         Ok(d) => d,
         Err(p) => return vec![fail("panic", p)],
     };
+    mon::note_outcome(if direct.is_ok() { 1 } else { 2 });
     let renderings = [("plain", json_quote(s)), ("all-escaped", json_escape_all(s)), ("mixed-escapes", json_escape_mixed(s))];
     for (name, js) in &renderings {
         match guard(|| serde_json::from_str::<LanguageIdentifier>(js)) {
@@ -631,6 +632,17 @@ pub fn c19_replay(v: &Value) -> Vec<Fail> {
     if let Some(js) = v["json"].as_str() {
         return c19_check_nonstring(js);
     }
+    #[cfg(feature = "likely")]
+    if let (Some(of), Some(route)) = (v["of"].as_str(), v["route"].as_str()) {
+        if let Ok(mut x) = of.parse::<LanguageIdentifier>() {
+            if route == "maximize" {
+                x.maximize();
+            } else {
+                x.minimize();
+            }
+            return c19_check_value(&x);
+        }
+    }
     if let Some(s) = v["value"].as_str() {
         if let Ok(l) = s.parse::<LanguageIdentifier>() {
             return c19_check_value(&l);
@@ -651,7 +663,7 @@ pub fn run_c19(ctx: &mut Ctx) {
         ctx.count(src.name());
         // judged call first (see run_c03)
         ctx.judge_bytes(b, &mut |c| c19_check_str(c));
-        let ok = s.parse::<LanguageIdentifier>().is_ok();
+        let ok = mon::take_outcome() & 3 == 1;
         ctx.count(if ok { "string:parses" } else { "string:rejected" });
         if crate::refspec::n_subtags(b) >= 2 {
             ctx.sig(crate::refspec::class_seq_hash(19, b, ok as u64));
@@ -681,6 +693,35 @@ pub fn run_c19(ctx: &mut Ctx) {
         }
     }
     ctx.rng_state = None;
+    // values only maximize / minimize can produce (their subtags come out of the compiled tables through the
+    // unchecked constructors): each must serialise to its canonical string and round-trip like any other
+    #[cfg(feature = "likely")]
+    if let Ok(lk) = crate::likely::Likely::load() {
+        for (i, (k, v)) in lk.entries.iter().enumerate() {
+            if i % ctx.nshards != ctx.shard {
+                continue;
+            }
+            for (src, which) in [(k, 0), (k, 1), (v, 1)] {
+                let Ok(li) = src.parse::<LanguageIdentifier>() else { continue };
+                let mut x = li.clone();
+                if guard(|| if which == 0 { x.maximize() } else { x.minimize() }).is_err() {
+                    ctx.count("setup: maximize/minimize panicked (value skipped)");
+                    continue;
+                }
+                mon::begin_case(src.as_bytes());
+                ctx.evals += 1;
+                ctx.count("value:likely-subtags-result");
+                for f in c19_check_value(&x) {
+                    ctx.viol_total += 1;
+                    ctx.count_dyn(&format!("violation:{}", f.clause));
+                    if ctx.may_minimise(&f.clause) {
+                        ctx.add_violation(&f.clause, json!({"value": x.to_string(), "route": if which == 0 { "maximize" } else { "minimize" }, "of": src}), json!(null), f.detail);
+                    }
+                }
+            }
+        }
+        mon::idle();
+    }
     // non-string JSON
     if ctx.shard == 0 {
         for js in NON_STRINGS {
